@@ -475,3 +475,84 @@ def enum_switches(body, prog, enum_rx):
 def adt_variant_count(prog, name):
     a = prog.adts.get(name)
     return len(a["variants"]) if a else None
+
+
+# --------------------------------------------------------------------------------------------
+# success-path analysis
+
+def error_cut(body):
+    """(removed_edges, removed_blocks) that delete every *error exit* of a body returning
+    Result/Option: Break edges of `?`, blocks that build `Err(..)`/`None` into the return place
+    and `from_residual` calls.  What remains reachable are the success paths."""
+    edges, blocks = set(), set()
+    for c in body.calls:
+        if c.is_(TRY_BRANCH) and c.target is not None:
+            d = place_local(c.dest)
+            for b in body._forward_blocks(c.target):
+                t = body.term(b)
+                if t[0] == "switch":
+                    if body._disc_source(b, t) == d:
+                        for v, tgt in t[2]:
+                            if v == 1:
+                                edges.add((b, tgt))
+                    break
+        elif c.is_(FROM_RESIDUAL) and place_local(c.dest) == 0:
+            blocks.add(c.bb)
+    for b in result_blocks(body, "Err"):
+        blocks.add(b)
+    return edges, blocks
+
+
+def on_all_success_paths(body, via_edges=(), via_blocks=(), assume_removed=()):
+    """True iff every success path entry -> return uses one of via_edges / via_blocks."""
+    e, bl = error_cut(body)
+    reach = body.reachable(0, removed_edges=set(e) | set(via_edges) | set(assume_removed),
+                           removed_blocks=set(bl) | set(via_blocks))
+    return not any(r in reach for r in body.return_blocks())
+
+
+def const_param_false_edges(body, name_rx=r"^[A-Z_]+$"):
+    """Edges taken when a const generic bool parameter is false (switch on a named constant)."""
+    out = set()
+    for b in body.live_blocks():
+        t = body.term(b)
+        if t[0] != "switch":
+            continue
+        op = t[1]
+        if op[0] != "k":
+            l = op_local(op)
+            ds = body.defs.get(l, []) if l is not None else []
+            if len(ds) == 1 and ds[0][0] == "stmt" and ds[0][4][0] == "use":
+                op = ds[0][4][1]
+        if op[0] == "k" and re.search(name_rx, op[1]):
+            for v, tgt in t[2]:
+                if v == 0:
+                    out.add((b, tgt))
+    return out
+
+
+def bool_payload_edges(body, call):
+    """For a call returning bool or Result<bool>/future thereof: the SwitchInt on the boolean
+    value itself.  Returns (true_edges, false_edges) or None."""
+    if call.target is None:
+        return None
+    events, taint = body.flow([place_local(call.dest)], call.target)
+    for ev in events:
+        if ev[0] != "switch":
+            continue
+        b, t = ev[1], ev[2]
+        l = op_local(t[1])
+        if l is None or body._disc_source(b, t) is not None:
+            continue
+        src, flipped = switch_parity(body, l)
+        if body.locals[l] != "bool" and body.locals[src] != "bool":
+            # projection like (x as Continue).0 : type of the local is the enum; accept when
+            # the switch has the boolean shape [[0, f]] else t
+            if not (len(t[2]) == 1 and t[2][0][0] == 0):
+                continue
+        te = [(b, t[3])]
+        fe = [(b, tgt) for v, tgt in t[2] if v == 0]
+        if flipped:
+            te, fe = fe, te
+        return te, fe
+    return None
